@@ -44,10 +44,12 @@ type dEntry struct {
 type c09Head struct {
 	Corpus []dEntry    `json:"corpus"`
 	Combos [][2]string `json:"combos"` // (command, state) points to evaluate
+	Full   [][2]string `json:"full"`   // all points, for cases that ask for them
 }
 
 type c09Case struct {
 	Blocks []dBlock `json:"blocks"`
+	Full   bool     `json:"full"`
 }
 
 // renderCorpus writes one file per path, one group per distinct group-label set; returns (path, first line)
@@ -240,8 +242,12 @@ func init() {
 				errs[ix] = err
 				return
 			}
-			obs := make([][]string, len(head.Combos))
-			for k, cs := range head.Combos {
+			combos := head.Combos
+			if c.Full && len(head.Full) > 0 {
+				combos = head.Full
+			}
+			obs := make([][]string, len(combos))
+			for k, cs := range combos {
 				ms, err := pipe.DispatchMarkersCfg(cfg, entries, cs[0], cs[1], isMarker)
 				if err != nil {
 					errs[ix] = fmt.Errorf("case %d %s/%s: %v", ix+1, cs[0], cs[1], err)
@@ -260,7 +266,7 @@ func init() {
 				}
 			}
 			results[ix] = append(results[ix], map[string]any{"ev": "Eval", "id": ix + 1, "src": "inproc", "blocks": json.RawMessage(mustField(cases[ix], "blocks")),
-				"combos": head.Combos, "obs": obs})
+				"combos": combos, "obs": obs})
 			if every > 0 && ix%every == 0 {
 				rows, err := c09Binary(pint, corpusDir, tmp, cfgText, tops, c.Blocks, where, n)
 				if err != nil {
